@@ -348,3 +348,22 @@ func init() {
 		return out
 	}
 }
+
+func init() {
+	externals["(*sync/atomic.Value).Store"] = func(p *Path, fr *frame, a []Value) Value {
+		p.yield(fr, nil, "atomic.Value.Store")
+		st := (*a[0].(Ptr)).(Struct)
+		if a[1].(Iface).T == nil {
+			panic(targetPanic{msg: "sync/atomic: store of nil value into Value"})
+		}
+		st[0] = a[1]
+		return nil
+	}
+	externals["(*sync/atomic.Value).Load"] = func(p *Path, fr *frame, a []Value) Value {
+		p.yield(fr, nil, "atomic.Value.Load")
+		st := (*a[0].(Ptr)).(Struct)
+		return st[0]
+	}
+	externals["slices.Contains[[]uint32 uint32]"] = nil
+	delete(externals, "slices.Contains[[]uint32 uint32]")
+}
